@@ -67,7 +67,7 @@ theorem fin_ins (ps : PS) (ev : Ev) (b : Bool) : (fin ps ev b).ins = ps.ins := b
 /-- **post run**: downstream of the last holder, with nothing busy, an event runs through the
     remaining actions without touching the state: it passes (no operation), or a plain action
     discards it (one `drop`); children of a split pass silently. -/
-theorem post_run (acts : List Act) :
+theorem post_run (acts : List Act) [NoCol acts] :
     ∀ fuel,
       (∀ idx ev ps ps' r, NoHolderFrom acts idx → Clean ps → doActs fuel acts idx ev ps = (ps', r) →
         Clean ps' ∧ ps'.ins = ps.ins ∧
@@ -99,6 +99,7 @@ theorem post_run (acts : List Act) :
         · rw [if_pos hsk] at h; exact ihA _ _ _ _ _ hno1 hc h
         · rw [if_neg hsk] at h
           cases a with
+          | collapser ci => exact absurd hget (NoCol.out _ _)
           | plain i =>
             simp only at h
             rw [resetBusy_clean hc] at h
@@ -159,7 +160,7 @@ theorem flush_state {ps : PS} {h : Nat} {x : EvSpec} (hh : Holding ps h x) (t : 
 
 /-- **flush**: the only holder re-injects its event; downstream nothing is busy, so the event is
     handed to the output or discarded right away and the nested frame returns -/
-theorem flush_holding (acts : List Act) (h : Nat) (hno : NoHolderFrom acts (h+1)) :
+theorem flush_holding (acts : List Act) [NoCol acts] (h : Nat) (hno : NoHolderFrom acts (h+1)) :
     ∀ fuel ps ps' r x, Holding ps h x → flushAt fuel acts h ps = (ps', r) →
       ps'.ins = ps.ins ∧
       ((r = none ∧ Clean ps' ∧ (ps'.toks = ps.toks ++ [.propagate x.seq, .out x.seq] ∨
@@ -249,7 +250,7 @@ theorem d_flush_drop {d : DS} {x : Nat} (hp : d.propd = []) (hh : d.held = [x])
   simp [drun, dstep?, hh, hp, hne]
 
 /-- flush, seen by the automaton -/
-theorem flush_sim (acts : List Act) (h : Nat) (hno : NoHolderFrom acts (h+1))
+theorem flush_sim (acts : List Act) [NoCol acts] (h : Nat) (hno : NoHolderFrom acts (h+1))
     {fuel : Nat} {ps ps' : PS} {r : Option String} {x : EvSpec} {d : DS}
     (hh : Holding ps h x) (hp : d.propd = []) (hd : d.held = [x.seq]) (hlt : ∀ q, d.inhand = some q → x.seq < q)
     (hf : flushAt fuel acts h ps = (ps', r)) :
@@ -262,12 +263,12 @@ theorem flush_sim (acts : List Act) (h : Nat) (hno : NoHolderFrom acts (h+1))
   · exact ⟨[], d, by simp [ht], rfl, hi, fun h0 => absurd h0 hr⟩
   · exact ⟨_, _, ht, d_prop hd, hi, fun h0 => absurd h0 hr⟩
 
-theorem noHolder_after {acts : List Act} {h : Nat} (hch : Chain acts h) : NoHolderFrom acts (h+1) := by
+theorem noHolder_after {acts : List Act} [NoCol acts] {h : Nat} (hch : Chain acts h) : NoHolderFrom acts (h+1) := by
   intro j g hj hget
   have := hch.only j g hget
   omega
 
-theorem chain_not_holder_lt {acts : List Act} {h idx : Nat} (hch : Chain acts h) (hle : idx ≤ h)
+theorem chain_not_holder_lt {acts : List Act} [NoCol acts] {h idx : Nat} (hch : Chain acts h) (hle : idx ≤ h)
     {a : Act} (hget : acts[idx]? = some a) (hna : ∀ g, a ≠ .holder g) : idx < h := by
   rcases Nat.lt_or_ge idx h with hlt | hge
   · exact hlt
@@ -278,7 +279,7 @@ theorem chain_not_holder_lt {acts : List Act} {h idx : Nat} (hch : Chain acts h)
     · have : acts[idx]? = none := by rw [List.getElem?_eq_none_iff]; omega
       rw [this] at hget; cases hget
 
-theorem stateOK_reset_ne {acts : List Act} {h idx : Nat} {ps : PS} {d : DS} {c : Option Nat} {lb : Nat}
+theorem stateOK_reset_ne {acts : List Act} [NoCol acts] {h idx : Nat} {ps : PS} {d : DS} {c : Option Nat} {lb : Nat}
     (hs : StateOK acts h ps d c lb) (hne : idx ≠ h) : resetBusy ps idx = ps := by
   rcases hs.2.2.2 with ⟨hc, _⟩ | ⟨x, f, hh, _, _, _⟩
   · exact resetBusy_clean hc _
@@ -298,7 +299,7 @@ theorem hold_state {ps : PS} (hc : Clean ps) (h : Nat) (e : EvSpec) :
   cases ps; simp_all [fin, emit, markBusy, setHeld, Holding, Clean]
 
 /-- the holder flushes first when it is joining -/
-theorem maybe_flush (acts : List Act) (h : Nat) (hch : Chain acts h)
+theorem maybe_flush (acts : List Act) [NoCol acts] (h : Nat) (hch : Chain acts h)
     {n : Nat} {ps ps1 : PS} {r1 : Option String} {d : DS} {c : Option Nat} {lb : Nat}
     (hs : StateOK acts h ps d c lb)
     (hf : (if (heldAt ps h).isSome = true then flushAt n acts h ps else (ps, none)) = (ps1, r1)) :
@@ -321,7 +322,7 @@ theorem maybe_flush (acts : List Act) (h : Nat) (hch : Chain acts h)
     exact ⟨hc1, ⟨rfl, hi, hb, Or.inl ⟨hc1, rfl⟩⟩, rfl⟩
 
 /-- downstream of the holder, seen by the automaton -/
-theorem post_sim (acts : List Act) (h : Nat) (hch : Chain acts h)
+theorem post_sim (acts : List Act) [NoCol acts] (h : Nat) (hch : Chain acts h)
     {n : Nat} {ev : Ev} {ps ps' : PS} {r : Res} {d : DS} {c : Option Nat} {lb : Nat}
     (hc : Clean ps) (hs : StateOK acts h ps d c lb) (hd0 : d.held = []) (hev : EvOK acts h ev c)
     (hf : doActs n acts (h+1) ev ps = (ps', r)) :
@@ -347,7 +348,7 @@ theorem drun_two {d d1 d2 : DS} {a b : List Op} (h1 : drun d a = some d1) (h2 : 
 
 /-- **the run of one event through the chain, from at or before the holder**, simulated by the
     discipline automaton -/
-theorem pre_run (acts : List Act) (h : Nat) (hch : Chain acts h) :
+theorem pre_run (acts : List Act) [NoCol acts] (h : Nat) (hch : Chain acts h) :
     ∀ fuel,
       (∀ idx ev ps ps' r d c lb, idx ≤ h → StateOK acts h ps d c lb → EvOK acts h ev c →
         doActs fuel acts idx ev ps = (ps', r) →
@@ -384,6 +385,7 @@ theorem pre_run (acts : List Act) (h : Nat) (hch : Chain acts h) :
       | some a =>
         rw [hget] at hf; simp only at hf
         cases a with
+        | collapser ci => exact absurd hget (NoCol.out _ _)
         | plain i =>
           have hlt : idx < h := chain_not_holder_lt hch hle hget (by intro g hg; cases hg)
           by_cases hsk : (!isBusy ps idx && skips ev idx) = true
@@ -611,20 +613,20 @@ theorem timeoutAction_holding {ps : PS} {h : Nat} {x : EvSpec} (hh : Holding ps 
   · have : ([h] : List Nat).contains last = false := by simp; omega
     rw [this]; simp
 
-theorem stateOK_clean_held {acts : List Act} {h : Nat} {ps : PS} {d : DS} {c : Option Nat} {lb : Nat}
+theorem stateOK_clean_held {acts : List Act} [NoCol acts] {h : Nat} {ps : PS} {d : DS} {c : Option Nat} {lb : Nat}
     (hs : StateOK acts h ps d c lb) (hc : Clean ps) : d.held = [] := by
   rcases hs.2.2.2 with ⟨_, hd⟩ | ⟨x, f, hh, _, _, _⟩
   · exact hd
   · have := hh.1; rw [hc.1] at this; cases this
 
-theorem stateOK_busy0 {acts : List Act} {h : Nat} {ps : PS} {d : DS} {c : Option Nat} {lb : Nat}
+theorem stateOK_busy0 {acts : List Act} [NoCol acts] {h : Nat} {ps : PS} {d : DS} {c : Option Nat} {lb : Nat}
     (hs : StateOK acts h ps d c lb) (hb : busyTotal ps = 0) : Clean ps := by
   rcases hs.2.2.2 with ⟨hc, _⟩ | ⟨x, f, hh, _, _, _⟩
   · exact hc
   · simp [busyTotal, hh.1] at hb
 
 /-- moving the input cursor and logging an operation leave the action state alone -/
-theorem stateOK_take {acts : List Act} {h : Nat} {ps : PS} {d : DS} {lb m : Nat} (rest : List Item) (t : Op)
+theorem stateOK_take {acts : List Act} [NoCol acts] {h : Nat} {ps : PS} {d : DS} {lb m : Nat} (rest : List Item) (t : Op)
     (c' : Option Nat) (hs : StateOK acts h ps d none lb) (hlm : lb ≤ m) (hc' : ∀ q, c' = some q → m < q) :
     StateOK acts h (emit { ps with ins := rest } t) { d with inhand := c' } c' m := by
   obtain ⟨hp, _, _, hst⟩ := hs
@@ -633,7 +635,7 @@ theorem stateOK_take {acts : List Act} {h : Nat} {ps : PS} {d : DS} {lb m : Nat}
   · exact Or.inl ⟨by simpa [Clean, emit] using hc, hd⟩
   · exact Or.inr ⟨x, f, by simpa [Holding, emit] using hh, hg, hd, by omega⟩
 
-theorem procEv_sim (acts : List Act) (h : Nat) (hch : Chain acts h) :
+theorem procEv_sim (acts : List Act) [NoCol acts] (h : Nat) (hch : Chain acts h) :
     ∀ fuel ev idx ps ps' r d c lb m, idx ≤ h → StateOK acts h ps d c lb → EvOK acts h ev c →
       (∀ sk, ev ≠ .child sk) → (ev = .tmo → c = none) → lb ≤ m → (∀ q, c = some q → q ≤ m) →
       Above m ps.ins → ItemsOK acts h ps.ins →
@@ -731,7 +733,7 @@ theorem procEv_sim (acts : List Act) (h : Nat) (hch : Chain acts h) :
               refine ⟨extra ++ [.getTimeout] ++ extra2, d2, by simp [ht2, emit, ht], ?_, hok2⟩
               exact drun_two (drun_two hdr (d_getTimeout hs1.1 hs1.2.1)) hdr2
 
-theorem procSeq_sim (acts : List Act) (h : Nat) (hch : Chain acts h)
+theorem procSeq_sim (acts : List Act) [NoCol acts] (h : Nat) (hch : Chain acts h)
     {fuel : Nat} {ev : Ev} {ps ps' : PS} {r : Option String} {d : DS} {c : Option Nat} {lb m : Nat}
     (hs : StateOK acts h ps d c lb) (hev : EvOK acts h ev c) (hnc : ∀ sk, ev ≠ .child sk) (htm : ev = .tmo → c = none)
     (hlm : lb ≤ m) (hcm : ∀ q, c = some q → q ≤ m) (hab : Above m ps.ins) (hio : ItemsOK acts h ps.ins)
@@ -752,10 +754,10 @@ theorem procSeq_sim (acts : List Act) (h : Nat) (hch : Chain acts h)
       | passed => simp only at hf; cases hf; exact ⟨extra, d1, ht, hdr, fun _ => hok (by intro w hw; cases hw)⟩
       | stopped l => simp only at hf; cases hf; exact ⟨extra, d1, ht, hdr, fun _ => hok (by intro w hw; cases hw)⟩
 
-theorem stateOK_empty (acts : List Act) (h : Nat) {ps : PS} (hc : Clean ps) (lb : Nat) :
+theorem stateOK_empty (acts : List Act) [NoCol acts] (h : Nat) {ps : PS} (hc : Clean ps) (lb : Nat) :
     StateOK acts h ps {} none lb := ⟨rfl, rfl, by simp, Or.inl ⟨hc, rfl⟩⟩
 
-theorem discharge_sim (acts : List Act) (h : Nat) (hch : Chain acts h) :
+theorem discharge_sim (acts : List Act) [NoCol acts] (h : Nat) (hch : Chain acts h) :
     ∀ fuel ps ps' r m, Clean ps → Above m ps.ins → ItemsOK acts h ps.ins →
       discharge fuel acts ps = (ps', r) →
       ∃ extra d', ps'.toks = ps.toks ++ extra ∧ drun {} extra = some d' := by
@@ -829,7 +831,7 @@ def kidsOfEv : Ev → Nat
   | _ => 0
 
 /-- downstream of the holder, a run needs at most (remaining actions + children + 3) nested calls -/
-theorem post_total (acts : List Act) :
+theorem post_total (acts : List Act) [NoCol acts] :
     ∀ fuel,
       (∀ idx ev ps, NoHolderFrom acts idx → Clean ps → idx ≤ acts.length → (acts.length - idx) + kidsOfEv ev + 3 ≤ fuel →
         ∀ w, (doActs fuel acts idx ev ps).2 ≠ .halt w) ∧
@@ -859,6 +861,7 @@ theorem post_total (acts : List Act) :
         · rw [if_pos hsk]; exact ihA _ _ _ hno1 hc (by omega) (by omega) w
         · rw [if_neg hsk]
           cases a with
+          | collapser ci => exact absurd hget (NoCol.out _ _)
           | plain i =>
             simp only; rw [resetBusy_clean hc]
             split
@@ -901,7 +904,7 @@ theorem post_total (acts : List Act) :
     action handled the previous event (`last`), the time-out is delivered to the busy holder
     (processor.timeoutAction), which re-injects its event; that event is handed to the output or
     dropped, the processor frame returns with nothing busy. -/
-theorem timeout_flushes (acts : List Act) (h : Nat) (hch : Chain acts h)
+theorem timeout_flushes (acts : List Act) [NoCol acts] (h : Nat) (hch : Chain acts h)
     (ps : PS) (x : EvSpec) (f : Nat) (hh : Holding ps h x) (hget : acts[h]? = some (.holder f))
     (last fuel : Nat) (hfuel : acts.length + x.kids + 8 ≤ fuel) :
     ∃ ps', procEv fuel acts .tmo (timeoutAction ps last) ps = (ps', .stopped h) ∧ Clean ps' ∧ ps'.ins = ps.ins ∧
